@@ -118,15 +118,15 @@ Lemma inv_init : Inv 0 init_state.
 Proof. exists []. cbn. repeat split; lia. Qed.
 
 (** size agreement of the hand-written emitters (estimate of pass 1 = bytes of codegen) *)
-Lemma size_jmp_short16 rel : -128 <= rel <= 127 -> zlen (gen_jmp M16 rel) = estimate_jump "JMP" M16.
+Lemma size_jmp_short16 rel : -126 <= rel <= 129 -> zlen (gen_jmp M16 rel) = estimate_jump "JMP" M16.
 Proof.
   intros H. unfold gen_jmp, offset_size.
-  replace ((-128 <=? rel) && (rel <=? 127)) with true by (symmetry; apply andb_true_intro; split; apply Z.leb_le; lia). reflexivity.
+  replace ((-128 <=? rel - 2) && (rel - 2 <=? 127)) with true by (symmetry; apply andb_true_intro; split; apply Z.leb_le; lia). reflexivity.
 Qed.
-Lemma size_jcc_short16 opc rel name : -128 <= rel <= 127 -> name <> "CALL"%string -> zlen (gen_jcc opc rel) = estimate_jump name M16.
+Lemma size_jcc_short16 opc rel name : -126 <= rel <= 129 -> name <> "CALL"%string -> zlen (gen_jcc opc rel) = estimate_jump name M16.
 Proof.
   intros H Hn. unfold gen_jcc, offset_size, estimate_jump.
-  replace ((-128 <=? rel) && (rel <=? 127)) with true by (symmetry; apply andb_true_intro; split; apply Z.leb_le; lia).
+  replace ((-128 <=? rel - 2) && (rel - 2 <=? 127)) with true by (symmetry; apply andb_true_intro; split; apply Z.leb_le; lia).
   apply String.eqb_neq in Hn. rewrite Hn. reflexivity.
 Qed.
 Lemma size_call16 rel : -32768 <= rel - 5 <= 32767 -> zlen (gen_call rel) = estimate_jump "CALL" M16.
@@ -137,4 +137,4 @@ Proof.
 Qed.
 (* the disagreement behind finding C04-bits16-forward-beyond-short / C03 drift *)
 Lemma size_jmp16_refuted : exists rel, zlen (gen_jmp M16 rel) <> estimate_jump "JMP" M16.
-Proof. exists 128. vm_compute. congruence. Qed.
+Proof. exists 130. vm_compute. congruence. Qed.
